@@ -921,7 +921,8 @@ Proof.
     destruct (lookup_fflat_in rnone trees p Hp) as [i Hi]. rewrite Hi. discriminate. }
   { rewrite Hl. now apply lookup_fflat_notin. }
   { exact Hk. }
-  cbn [List.map snd] in *. fold ns in E', Huids', Hl'. rewrite Hse, Es in *. cbn [fst snd] in *.
+  cbn [List.map snd] in E', Huids', Hl'. fold ns in E', Huids', Hl'.
+  rewrite Hse in E', Hl'. cbn [fst snd] in E', Hl'.
   (* UniqueId facts *)
   assert (Hsz' : (fsize [t'] <= tsize t)%nat).
   { replace [t'] with (List.map (apply_uids asg) [t]) by reflexivity. rewrite fsize_apply_uids. lia. }
@@ -948,7 +949,7 @@ Proof.
       rewrite pushes_cons. change (pushes x []) with (@nil ref). rewrite app_nil_r. rewrite Hl.
       assert (Hin_old : forall i, lookup x (flat_map (tflat rnone) trees) = Some i ->
                                   x <> rnone /\ forall q, lookup x (tflat q t') = None).
-      { intros i Hi. apply lookup_Some_keys in Hi. rewrite keys_fflat in Hi. split; [congruence|].
+      { intros i Hi. apply lookup_Some_keys in Hi. rewrite keys_fflat in Hi. split; [intros ->; contradiction|].
         intros q. apply lookup_tflat_notin. rewrite Htr'. intros Hc. now apply (Hdisj x). }
       unfold fgraft. destruct (N.eqb p rnone) eqn:Ep.
       * apply N.eqb_eq in Ep. subst p. rewrite flat_map_app, lookup_app. cbn [flat_map]. rewrite app_nil_r.
